@@ -128,6 +128,48 @@ def build_param_case(cfg):
             mk = lambda t: M.DenseDefiniteMatrix(  # noqa: E731
                 t.copy(), is_posdef=(k == "dense_definite_pos"))
         return B0, mk, lambda t: t, [(i, j) for i in range(n) for j in range(i + 1)], "symmetric"
+    if k in ("dense_pd_upper_factor", "dense_definite_neg_upper_factor", "dense_pd_via_inv",
+             "dense_pd_lower_factor_obj"):
+        # a factor supplied by the caller (upper / lower TriangularMatrix object), or the
+        # differentiable matrix obtained as the inverse of another one (its factor is upper)
+        B0 = mzoo.P_spd(n, seed)
+
+        def upper_factor(t):
+            # U upper triangular with U U^T = t
+            return np.linalg.cholesky(t[::-1, ::-1])[::-1, ::-1]
+
+        free = [(i, j) for i in range(n) for j in range(i + 1)]
+        if k == "dense_pd_upper_factor":
+            return (B0, lambda t: M.DensePositiveDefiniteMatrix(
+                t.copy(), factor=M.TriangularMatrix(upper_factor(t), lower=False)),
+                lambda t: t, free, "symmetric")
+        if k == "dense_pd_lower_factor_obj":
+            return (B0, lambda t: M.DensePositiveDefiniteMatrix(
+                t.copy(), factor=M.TriangularMatrix(np.linalg.cholesky(t), lower=True)),
+                lambda t: t, free, "symmetric")
+        if k == "dense_definite_neg_upper_factor":
+            return (-B0, lambda t: M.DenseDefiniteMatrix(
+                t.copy(), factor=M.TriangularMatrix(upper_factor(-t), lower=False),
+                is_posdef=False), lambda t: t, free, "symmetric")
+        return (B0, lambda t: M.DensePositiveDefiniteMatrix(np.linalg.inv(t)).inv,
+                lambda t: t, free, "symmetric")
+    if k.startswith("intfactor"):
+        # intfactor_{pos|neg|pd}_{lower|upper}: triangular factored, factor of INTEGER dtype
+        _, sg, lo = k.split("_")
+        lower = lo == "lower"
+        sign = -1 if sg == "neg" else 1
+        T0 = np.array([[2.0, 0, 0, 0], [1, 3, 0, 0], [-1, 2, 5, 0], [3, 1, -2, -7]])[:n, :n]
+        if not lower:
+            T0 = T0.T.copy()
+        free = [(i, j) for i in range(n) for j in range(n) if (i >= j if lower else i <= j)]
+        if sg == "pd":
+            mk = lambda t: M.TriangularFactoredPositiveDefiniteMatrix(  # noqa: E731
+                t.astype(np.int64), factor_is_lower=lower)
+        else:
+            mk = lambda t: M.TriangularFactoredDefiniteMatrix(  # noqa: E731
+                t.astype(np.int64), sign=sign, factor_is_lower=lower)
+        return T0, mk, lambda t: sign * t @ t.T, free, "triangular_lower" if lower \
+            else "triangular_upper"
     if k in ("dense_pd_product", "dense_pd_product_inner"):
         R0 = mzoo.P_rect(n, n + 1, seed)
         if k == "dense_pd_product":
@@ -195,6 +237,9 @@ KINDS = (
        for h in ("times", "div")]
     + [f"softabs_{c}_{v}" for c in ("100.0", "1000.0")
        for v in ("generic", "repeated_rotated", "negative")]
+    + ["dense_pd_upper_factor", "dense_pd_lower_factor_obj", "dense_definite_neg_upper_factor",
+       "dense_pd_via_inv"]
+    + [f"intfactor_{s}_{l}" for s in ("pos", "neg", "pd") for l in ("lower", "upper")]
 )
 
 
